@@ -22,7 +22,13 @@ def _process_calls(func):
         if isinstance(n, ast.Call) and isinstance(n.func, ast.Attribute) and n.func.attr == "Process":
             kw = {k.arg: k.value for k in n.keywords}
             tgt = kw.get("target")
-            out.append((n, tgt.id if isinstance(tgt, ast.Name) else None, kw.get("args"), kw.get("kwargs")))
+            a_ = kw.get("args")
+            if isinstance(a_, ast.Name):
+                # `args = (queue, items, ...); Process(target=..., args=args)`: the tuple display itself (its elements left as written)
+                from .model import single_assignments
+                once = single_assignments(func.node, allow_subscript=False, in_loops=True, loose=True)
+                a_ = once.get(a_.id, a_)
+            out.append((n, tgt.id if isinstance(tgt, ast.Name) else None, a_, kw.get("kwargs")))
     return out
 
 
@@ -48,6 +54,19 @@ def _def_before(func, node, name):
                     p_ = stmts[j]
                     if isinstance(p_, ast.Assign) and len(p_.targets) == 1 and isinstance(p_.targets[0], ast.Name) and p_.targets[0].id == name:
                         return p_.value
+                    if isinstance(p_, ast.If) and p_.body and p_.orelse:
+                        # bound in both arms of an if/else by calls of the same callable with the same `target=` (a process
+                        # started with or without optional keyword arguments): either definition describes it
+                        def last_def(arm):
+                            for q in reversed(arm):
+                                if isinstance(q, ast.Assign) and len(q.targets) == 1 and isinstance(q.targets[0], ast.Name) and q.targets[0].id == name:
+                                    return q.value
+                            return None
+                        a_, b_ = last_def(p_.body), last_def(p_.orelse)
+                        if isinstance(a_, ast.Call) and isinstance(b_, ast.Call) and dotted(a_.func) == dotted(b_.func) \
+                                and unparse(next((k.value for k in a_.keywords if k.arg == "target"), None) or a_.func) \
+                                == unparse(next((k.value for k in b_.keywords if k.arg == "target"), None) or b_.func):
+                            return a_
                     if any(isinstance(x, ast.Name) and x.id == name and isinstance(x.ctx, ast.Store) for x in ast.walk(p_)):
                         return None
                 return None
@@ -107,6 +126,32 @@ def rule_pills(ctx):
         return
     args = pcs[0][2].elts
     amap = dict(zip(fq.params, args))
+    # (0) the parent hands `items` to the filler and does nothing else with it: iterating, indexing or measuring it in the parent
+    #     consumes elements of a generator (which the filler then never sees) or fails on one
+    items_name = next((a.id for a in args if isinstance(a, ast.Name) and a.id in pa.params and a.id == "items"), None) or \
+        next((a.id for p_, a in amap.items() if isinstance(a, ast.Name) and a.id in pa.params and p_ in ("items", "iterable", "data")), None)
+    if items_name is not None:
+        uses = [n for n in walk_no_nested(pa.node) if isinstance(n, ast.Name) and n.id == items_name and isinstance(n.ctx, ast.Load)]
+        par = {}
+        for n in walk_no_nested(pa.node):
+            for ch in ast.iter_child_nodes(n):
+                par[id(ch)] = n
+        bad = []
+        for u in uses:
+            pn = par.get(id(u))
+            if pn is pcs[0][2]:
+                continue                                   # the filler's argument tuple
+            if isinstance(pn, ast.Compare) and all(isinstance(c_, ast.Constant) and c_.value is None for c_ in pn.comparators):
+                continue                                   # `items is None`
+            if isinstance(pn, ast.Call) and isinstance(pn.func, ast.Name) and pn.func.id in ("isinstance", "type", "id", "callable", "hasattr"):
+                continue
+            if isinstance(pn, ast.FormattedValue):
+                continue
+            bad.append(pn if pn is not None else u)
+        ctx.ob("pills", pa, bad[0] if bad else pcs[0][0] if hasattr(pcs[0][0], "lineno") else pa.node, "uses of `%s` in parallel_add" % items_name,
+               "the parent only hands the items to the filler process (a generator is consumed there, once)", not bad,
+               "" if not bad else "`%s` in parallel_add touches the items before the filler does: an element taken from a generator here never "
+                                  "reaches the queue" % unparse(bad[0], 60))
     # (1) every item put exactly once, unconditionally
     w = F.walk(fq)
     items_p = None
@@ -177,7 +222,7 @@ def rule_pills(ctx):
     nw = amap.get(pill_param) if pill_param else None
     starts = []
     for n in pa.body():
-        if isinstance(n, ast.For) and any(p[1] == wk.name and n.lineno <= p[0].lineno <= n.end_lineno for p in _process_calls(pa)):
+        if isinstance(n, ast.For) and any(p[1] == wk.name and any(x is p[0] for x in ast.walk(n)) for p in _process_calls(pa)):
             starts.append(n)
     okk, why = False, "worker start loop not found"
     if len(starts) == 1 and isinstance(nw, ast.Name):
@@ -186,9 +231,12 @@ def rule_pills(ctx):
         why = "" if okk else "workers are started over `%s` but the filler is told `%s`" % (unparse(it), unparse(nw))
         if okk:
             # no rebinding between the two uses
-            lo = min(pcs[0][0].lineno, starts[0].lineno)
-            hi = max(pcs[0][0].lineno, starts[0].end_lineno)
-            reb = [n for n in walk_no_nested(pa.node) if isinstance(n, ast.Name) and n.id == nw.id and isinstance(n.ctx, ast.Store) and lo <= n.lineno <= hi]
+            # (positions are taken from the statement list, not from line numbers: inlined helper code keeps the helper's lines)
+            body_ = pa.body()
+            i_f = next((i for i, st_ in enumerate(body_) if any(x is pcs[0][0] for x in ast.walk(st_))), 0)
+            i_s = next((i for i, st_ in enumerate(body_) if st_ is starts[0]), len(body_) - 1)
+            lo_, hi_ = min(i_f, i_s), max(i_f, i_s)
+            reb = [n for st_ in body_[lo_:hi_ + 1] for n in ast.walk(st_) if isinstance(n, ast.Name) and n.id == nw.id and isinstance(n.ctx, ast.Store)]
             okk = not reb
             why = "" if okk else "`%s` is rebound between starting the filler and starting the workers" % nw.id
         started = [c for c in calls_in(starts[0]) if isinstance(c.func, ast.Attribute) and c.func.attr == "start"]
@@ -548,6 +596,24 @@ def rule_cb_guard(ctx):
                     "after a failing callback the record count is not increased by exactly 0 (stale or missing per-item count)", fact_strs(e)))
     agg(ctx, "cb-guard", wk, t, "except ...: n_recs = 0; n_records += n_recs", "a failed item contributes 0 records and the loop continues",
         res or [(False, "no path continues the loop after a failing callback", [])])
+    # nothing outside the guard may fail on what the callback (or its failure) left behind: after failed items the record counts are 0,
+    # so a division by them kills the worker just like an unguarded callback exception would
+    cnt_names = {accname} if accname else set()
+    for e in w.events:
+        if e.kind == "assign" and W.in_loop(e) and any(getattr(c, "result", None) is not None and e.value is c.result for c in W.cb):
+            cnt_names.add(e.name)
+    guarded = {id(n) for n in ast.walk(t)}
+    divs = []
+    for n in ast.walk(lp):
+        if id(n) in guarded:
+            continue
+        if isinstance(n, ast.BinOp) and isinstance(n.op, (ast.Div, ast.FloorDiv, ast.Mod)):
+            den = {x.id for x in ast.walk(n.right) if isinstance(x, ast.Name)}
+            if den & cnt_names:
+                divs.append(n)
+    ctx.ob("cb-guard", wk, divs[0] if divs else lp, "divisions by the record counts outside the guard",
+           "no statement of the worker loop outside the guard can raise because an item failed", not divs,
+           "" if not divs else "`%s` divides by a record count that is 0 while every item so far has failed: ZeroDivisionError outside the guard, the worker dies" % unparse(divs[0], 60))
 
 
 # ---------------------------------------------------------------------------
